@@ -70,7 +70,17 @@ type CastMatcher struct {
 
 // Match implements the Matcher interface.
 func (m CastMatcher) Match(pattern, fact interface{}, bs Bindings) ([]Bindings, error) {
-	return m.Matcher.Match(cast(pattern), cast(fact), bs)
+	// The initial bindings are matched against, too (where their
+	// variables occur in the pattern), so they need the same cast
+	// (in a copy: they are the caller's).
+	var given Bindings
+	if bs != nil {
+		given = make(Bindings, len(bs))
+		for v, x := range bs {
+			given[v] = cast(x)
+		}
+	}
+	return m.Matcher.Match(cast(pattern), cast(fact), given)
 }
 
 func cast(iface interface{}) interface{} {
@@ -91,6 +101,23 @@ func cast(iface interface{}) interface{} {
 			n[i] = cast(v[i])
 		}
 		return n
+	// The matcher compares numbers as float64 (what a JSON decoder
+	// produces), and it converts a Go integer itself only at the
+	// top of a pattern or fact, not inside an array.  Integers
+	// arrive from Go callers and from Javascript (otto exports
+	// integral values as int64, lengths as uint32).
+	case int:
+		return float64(v)
+	case int64:
+		return float64(v)
+	case int32:
+		return float64(v)
+	case uint32:
+		return float64(v)
+	case uint64:
+		return float64(v)
+	case float32:
+		return float64(v)
 	default:
 		if v, ok := ISlice(v); ok {
 			return cast(v)
